@@ -22,6 +22,7 @@ type Opt struct {
 	NoFrozen  bool
 	FixedCaller bool // the caller has the identity the function expects (skip authority variations)
 	Small     bool // smallest argument shapes only (for properties whose subject is not the arguments)
+	Medium    bool // thorough tier: keep the quick tier's argument length sets (the state space is what is widened)
 	Thin      bool // smallest pre-state space (world.Config.Thin)
 	GasEnough bool // gas is not the subject: GasProvided >= 2^48
 	NoRAE     bool // ReturnCallAfterError pinned to false
@@ -125,6 +126,7 @@ func newScn(name string, o Opt) *Scn {
 		cfg.RolesMax = 2
 		cfg.RoleLens = []int{15, 17, 22, 27}
 	}
+	medium = o.Medium
 	small = o.Small || o.Wild // wild scenarios discard the typical arguments: build them in their smallest shape
 	noCall = o.NoCall || o.Wild
 	call2 = o.Call2
@@ -184,17 +186,22 @@ func nonceArg(tag string) []byte {
 	if small {
 		return verif.BytesOf(tag, 1)
 	}
-	if verif.Thorough() {
+	if wide() {
 		return verif.BytesOf(tag, 0, 1, 2, 8, 9)
 	}
 	return verif.BytesOf(tag, 0, 1, 2)
 }
 
+// wide reports whether argument generators use their widest (thorough) length sets.
+var medium bool
+
+func wide() bool { return verif.Thorough() && !medium }
+
 func smallBytes(tag string) []byte {
 	if small {
 		return verif.Bytes(tag, 1)
 	}
-	if verif.Thorough() {
+	if wide() {
 		return verif.BytesLen(tag, 0, 2)
 	}
 	return verif.BytesOf(tag, 0, 1)
@@ -376,7 +383,7 @@ func scnNFTCreate(o Opt) *Scn {
 	var royalties []byte
 	if small {
 		royalties = verif.Bytes("royalties", 2)
-	} else if verif.Thorough() {
+	} else if wide() {
 		royalties = verif.BytesOf("royalties", 0, 2, 4, 9)
 	} else {
 		royalties = verif.BytesOf("royalties", 2, 9)
@@ -636,7 +643,7 @@ func keyArg(tag string) []byte {
 	if small {
 		return verif.BytesOf(tag, 0, 6)
 	}
-	if verif.Thorough() {
+	if wide() {
 		return verif.BytesLen(tag, 0, 10)
 	}
 	return verif.BytesOf(tag, 0, 5, 6, 7)
